@@ -37,8 +37,9 @@ func init() {
 		"every t1 of <=2 rows over a in {NULL,1,2} x every t2 of <=2 rows over a in {NULL,1,3} (thorough <=3 rows); oracle: the same query with the nested set operation moved into a preceding non-recursive table of the WITH clause", c03RecsetRun)
 }
 
-// valid queries of these families need at most 4 iterations
-const c03RecsetLimit = 40
+// @@LIMIT_RECURSION of these families: their valid queries need at most 4 iterations (5 in the thorough tier), and a
+// recursion that a changed csvq lets run on must stop before a joining recursive query has doubled its rows often
+const c03RecsetLimit = 8
 
 // ---- recset: reference model ----------------------------------------------------------------------------
 
